@@ -5,7 +5,8 @@ import MontePyVerif.Props.C20
 # C13 — bad input fails in a controlled way: a deliberate error, never a leak or hang
 
 Theorems about `Model.Errors` (the error policy of `read_input`), stated over the tables GENERATED from the source
-(`Gen/Errors.lean`: class hierarchy from the live classes, `except` lists and `raise` statements from the AST), so
+(`Gen/Errors.lean`: class hierarchy from the live classes, handler lists OBSERVED by raising every class inside every
+region of the working tree, `raise` statements from the AST), so
 that removing a class from an `except` tuple, changing the hierarchy or adding a `raise` of an unhandled class inside a
 guarded loop re-opens a proof.
 
@@ -58,6 +59,12 @@ theorem C13_mapping : ∀ (r : Region) (c : Cls) (m : Mode),
       if (policy r).contains c then (match m with | .check => .warnAndContinue | .normal => .raise c) else .leak c := by
   intro r c m
   cases r <;> cases c <;> cases m <;> decide
+
+/-- **C13_tables_known.** Every fact of `Gen/Errors.lean` was observed on the working tree or read from its source:
+    the translator wrote no "unknown" (a region whose probe could not be run AND whose except clauses were not
+    recognised, a raise site whose function is gone, a pairing step that neither pairs strictly nor truncates).
+    An unknown region is written as the empty handler list, so that `C13_mapping` fails with it. -/
+theorem C13_tables_known : unknownFacts = [] := by decide
 
 /-- **C13_hierarchy.** The facts about `errors.py` the policy relies on (from the live classes): every error type of
     MontePy that describes a bad input is a ValueError except NumberConflictError (Exception) and UnsupportedFeature
